@@ -287,9 +287,11 @@ theorem parseTimeZone_minutes (tz : FmtNum.S) (off : Int) (h : parseTimeZone tz 
   · split at h
     · simp only [] at h
       split at h
-      · injection h with e
-        rw [← e]
-        rw [Int.mul_left_comm]; exact Int.mul_emod_right 60 _
+      · split at h
+        · exact absurd h (by simp)
+        · injection h with e
+          rw [← e]
+          rw [Int.mul_left_comm]; exact Int.mul_emod_right 60 _
       · exact absurd h (by simp)
     · exact absurd h (by simp)
 
